@@ -3,3 +3,8 @@ import Discv5Model.Props.C05
 import Discv5Model.Props.C06
 import Discv5Model.Props.C15
 import Discv5Model.Props.C17
+import Discv5Model.Props.C18
+import Discv5Model.Props.C09
+import Discv5Model.Props.C10
+import Discv5Model.Props.C07
+import Discv5Model.Props.C08
